@@ -834,6 +834,37 @@ async fn exec_op(env: &Arc<Env>, c: u16, i: u16, op: Op, slots: &mut Vec<Slot>) 
             crate::scenario::spawn_client(run_client(Arc::clone(env), nc, ops, table));
             end(c, i, Res::Ok);
         }
+        Op::FromRegistryCancel { k, polls } => {
+            let tag = 9000 + k as u32;
+            begin(c, i, OpK::FromRegistry, Hk::None, Path::NA, tag, 0, 0, k as u64);
+            let mut f: LocalBoxFuture<'static, Box<dyn DynAddr>> = match k {
+                1 => Box::pin(async { Box::new(Probe::<1>::from_registry().await) as Box<dyn DynAddr> }),
+                _ => Box::pin(async { Box::new(Probe::<2>::from_registry().await) as Box<dyn DynAddr> }),
+            };
+            let mut got = None;
+            for _ in 0..polls {
+                match futures::poll!(&mut f) {
+                    std::task::Poll::Ready(a) => {
+                        got = Some(a);
+                        break;
+                    }
+                    std::task::Poll::Pending => rt::yield_now().await,
+                }
+            }
+            let r = match got {
+                Some(a) => {
+                    env.reaper.lock().unwrap_or_else(|e| e.into_inner()).push((tag, a.downgrade()));
+                    let s = push(slots, Slot::mk(H::Addr(a), tag, c));
+                    Res::Handle { slot: s, some: true }
+                }
+                None => {
+                    drop(f);
+                    push(slots, Slot::empty());
+                    Res::Cancelled
+                }
+            };
+            end(c, i, r);
+        }
         Op::FromRegistry { k } | Op::Setup { k } | Op::TryFromRegistry { k } => {
             let opk = match op {
                 Op::FromRegistry { .. } => OpK::FromRegistry,
